@@ -200,6 +200,8 @@ def run(ctx):
     if traces:
         ctx.sample({'cart': meta[0][0][1], 'outcome': traces[0]['outcome'], 'rawLen': traces[0]['rawLen'], 'compLen': traces[0]['compLen'], 'pixels_sampled': len(traces[0]['pixels']), 'verdict': v[0][0]})
     chain(ctx)
+    from .. import system
+    system.run(ctx, 'C04')
 
 
 def chain(ctx):
